@@ -104,6 +104,8 @@ type T struct {
 }
 
 func (t *T) Fail(key, format string, args ...any) {
+	// keys are single tokens (known-findings file, replay protocol)
+	key = strings.Join(strings.Fields(key), "_")
 	desc := fmt.Sprintf(format, args...)
 	if len(desc) > 600 {
 		desc = desc[:600] + "..."
